@@ -14,6 +14,7 @@ pub const EXIT_VIOLATION: i32 = 1;
 pub const EXIT_INCONCLUSIVE: i32 = 2;
 /// worker exit code: a call exceeded its CPU budget (the worker's own watchdog fired)
 pub const EXIT_SLOW_CALL: i32 = 3;
+pub const EXIT_BLOCKED_CALL: i32 = 5;
 /// worker exit code: the harness itself panicked (oracle bug) -> inconclusive
 pub const EXIT_HARNESS: i32 = 4;
 
@@ -78,6 +79,7 @@ fn worker_main(a: &[String]) -> i32 {
     }
     install_panic_hook();
     enter_working_directory();
+    start_blocked_call_watchdog(EXIT_BLOCKED_CALL);
     let Some(p) = prop::by_id(&a[0]) else { return 64 };
     let p2 = prop::by_id(&a[0]).unwrap();
     let tier = parse_tier(&a[1]).unwrap();
@@ -96,7 +98,7 @@ fn worker_main(a: &[String]) -> i32 {
     if a.len() >= 9 && a[7] == "--journal" {
         out.set_journal(Path::new(&a[8]));
     }
-    let r = guard(|| p.run_shard(&env, &mut out));
+    let r = guard_inner(|| p.run_shard(&env, &mut out));
     let _ = std::fs::remove_dir_all(&env.scratch);
     match r {
         Ok(()) => {
@@ -181,6 +183,7 @@ enum ShardEnd {
     Ok,
     Died(String),
     Slow,
+    Blocked,
     Harness(String),
     Watchdog,
 }
@@ -226,6 +229,8 @@ fn orchestrate(p: &dyn Prop, tier: Tier, seed: u64) -> i32 {
                         ShardEnd::Ok
                     } else if st.code() == Some(EXIT_SLOW_CALL) {
                         ShardEnd::Slow
+                    } else if st.code() == Some(EXIT_BLOCKED_CALL) {
+                        ShardEnd::Blocked
                     } else if st.code() == Some(EXIT_HARNESS) {
                         ShardEnd::Harness(format!("{} {}", o.trim(), e.lines().last().unwrap_or("")))
                     } else {
@@ -275,10 +280,11 @@ fn orchestrate(p: &dyn Prop, tier: Tier, seed: u64) -> i32 {
             }
             ShardEnd::Watchdog => inconclusive.push(format!("shard {shard}: wall-clock watchdog ({}s) fired", watchdog.as_secs())),
             ShardEnd::Harness(m) => inconclusive.push(format!("shard {shard}: harness error: {m}")),
-            ShardEnd::Died(_) | ShardEnd::Slow => {
+            ShardEnd::Died(_) | ShardEnd::Slow | ShardEnd::Blocked => {
                 // Re-run this shard alone in journal mode to find the case that kills it.
                 let why = match end {
                     ShardEnd::Died(w) => w.clone(),
+                    ShardEnd::Blocked => "a single call stayed blocked (asleep, not runnable, no CPU used) for 45 s".to_string(),
                     _ => "a single call exceeded its CPU budget".to_string(),
                 };
                 let journal = base.join(format!("journal-{shard}.jsonl"));
@@ -299,8 +305,8 @@ fn orchestrate(p: &dyn Prop, tier: Tier, seed: u64) -> i32 {
                 match (st, last) {
                     (Some(st), Some(line)) if !st.success() => {
                         let case: Value = serde_json::from_str(&line).unwrap_or(Value::String(line));
-                        let clause = if matches!(end, ShardEnd::Slow) { "time-budget" } else { "process-death" };
-                        let k = if matches!(end, ShardEnd::Slow) { "slow".to_string() } else { format!("died({})", why.split(';').next().unwrap_or("")) };
+                        let clause = if matches!(end, ShardEnd::Slow | ShardEnd::Blocked) { "time-budget" } else { "process-death" };
+                        let k = if matches!(end, ShardEnd::Slow) { "slow".to_string() } else if matches!(end, ShardEnd::Blocked) { "blocked".to_string() } else { format!("died({})", why.split(';').next().unwrap_or("")) };
                         let sig = format!("{clause}:{k}:{:016x}", fnv(case.to_string().as_bytes()));
                         // offer to known findings through a throw-away Out carrying the classifier
                         let mut tmp = Out::new(id);
@@ -461,6 +467,8 @@ fn replay_main(path: &str) -> i32 {
         return 64;
     };
     let id = doc.get("property").and_then(|p| p.as_str()).unwrap_or("");
+    let _ = BLOCKED_EXIT_LINE.set(format!("VIOLATION property={id} replay={path}"));
+    start_blocked_call_watchdog(EXIT_VIOLATION);
     let Some(p) = prop::by_id(id) else {
         eprintln!("{path}: unknown property {id:?}");
         return 64;
@@ -489,7 +497,7 @@ fn replay_main(path: &str) -> i32 {
         println!("replay of {path}: a cross-process witness; running the whole {id} check again at the recorded tier and seed");
         return orchestrate(p.as_ref(), tier, env.seed);
     }
-    let r = guard(|| p.replay(&env, &case, &mut out));
+    let r = guard_inner(|| p.replay(&env, &case, &mut out));
     let _ = std::fs::remove_dir_all(&base);
     if let Err(pn) = r {
         println!("replay: escaped panic at {}: {}", pn.loc, pn.msg);
